@@ -156,7 +156,7 @@ InstLeaves(n) ==
 
 \* ---------------------------------------------------------------- choice operators
 ExhNsChoices(ctx) ==
-  IF Universe = "ns" THEN {"a", "b"} ELSE IF Universe = "inst" /\ ctx.nitems < MaxItems THEN (IF ctx.nspath = <<>> THEN {"a"} ELSE {"b"}) ELSE {}
+  IF Universe = "ns" THEN {"a", "ab"} ELSE IF Universe = "inst" /\ ctx.nitems < MaxItems THEN (IF ctx.nspath = <<>> THEN {"a"} ELSE {"b"}) ELSE {}
 ExhClassChoices(ctx) ==
   CASE Universe = "types"   -> IF ctx.cnt = 0 THEN TypeClassHdrs ELSE {}
     [] Universe = "sigs"    -> IF ctx.cnt = 0 THEN {ClassN("A", <<>>, FALSE, FALSE, NoType, <<>>)} ELSE {}
@@ -167,7 +167,8 @@ ExhMemberChoices(ctx) ==
   CASE Universe = "types"   -> IF ctx.nmembers = 0 /\ ctx.cls = "A" THEN TypeClassMembers ELSE {}
     [] Universe = "sigs"    -> IF ctx.nmembers = 0 THEN SigMembers ELSE {}
     [] Universe = "classes" -> ShapeMembers(ctx.nmembers)
-    [] Universe = "ns"      -> IF ctx.nmembers = 0 THEN {Prop(IntT, "p", FALSE, "")} ELSE {}
+    [] Universe = "ns"      -> IF ctx.nmembers = 0
+                               THEN {Prop(IntT, "p", FALSE, ""), Method("print", <<>>, Ret1(VoidT), <<>>, TRUE)} ELSE {}
     [] Universe = "inst"    -> {}
 ExhLeafChoices(ctx) ==
   CASE Universe = "types"   -> IF ctx.cnt = 0 THEN TypeLeaves ELSE {}
